@@ -57,7 +57,7 @@ NEGATIVE = {
 }
 
 ACTIONS = ["ASimple", "AProbe", "ARead", "AWrite", "ABigWrite", "AKill", "APubGet", "AAck", "AUnblock", "AForkSub", "AForkCs", "AForkBg", "AForkStage", "AReadEof",
-           "AEnable", "APollFg", "AReapFg", "APollAny", "AReapAny", "AWake", "AWaitChk", "AExit", "ACollect"]
+           "AEnable", "APollFg", "AReapFg", "APollAny", "AReapAny", "AWake", "APick", "AWaitChk", "AExit", "ACollect"]
 
 
 def _pkey(path):
